@@ -166,6 +166,7 @@ func pickSites(all []seqx.Site, names ...string) []seqx.Site {
 
 func runC01() {
 	r := seq.New("C01", tier, "model_checking")
+	defer r.CrashGuard()
 	r.Rule = "one evaluation = one logging program (global-setting deviations x logger derivation x window of field operations placed at a site x finaliser) executed on the real zerolog; every line handed to the writer is checked by an independent strict RFC 8259 parser (one object, valid UTF-8, no raw control byte, exactly one trailing newline); states = distinct output lines; distinct = distinct output lines; non-trivial = the program contains a container, an empty/nil value or a string needing escapes"
 	r.Assumptions = []string{"values from the class alphabet (one representative per emptiness / nil-ness / escaping / width class), not all values", "windows of <= 2 consecutive operations over the full alphabet and <= 3 with a structural middle symbol (quick) / <= 3 full (thorough) at every site; longer chains with <= 1 (quick) / 2 (thorough) deviating symbols", "excluded as the statement allows: invalid RawJSON / json.RawMessage fragments, marshal functions returning invalid JSON, time layouts containing quote, backslash or control characters"}
 	if tier == "quick" {
@@ -364,6 +365,29 @@ func runC01() {
 			}
 			if r.TimeUp() {
 				break
+			}
+		}
+		// (f) forks: two children of one parent, the younger derived (and logging) before the elder logs - what a
+		// derivation shares with its parent shows as a spliced line. Parents: none, an empty With(), a timestamp hook
+		// only (context = begin marker only), one context field, a 510-byte context; children: every pair of
+		// structural symbols as With() fields, plus hook / empty derivations
+		{
+			parents := [][]seqx.Step{nil, {{Op: "WithEmpty"}}, {{Op: "Timestamp"}}, {{Op: "With", Fields: []seqx.Field{{M: "Str", Key: "p", Val: "v"}}}}, {{Op: "With", Fields: []seqx.Field{{M: "Str", Key: "big", Val: strings.Repeat("B", 510)}}}}}
+			var kids []seqx.Step
+			for _, a := range S {
+				if seqx.HasContextForm(a) {
+					kids = append(kids, seqx.Step{Op: "With", Fields: []seqx.Field{seqx.Rekey(a, 0)}})
+				}
+			}
+			kids = append(kids, seqx.Step{Op: "WithEmpty"}, seqx.Step{Op: "Timestamp"}, seqx.Step{Op: "Hook", Hooks: []int{1}}, seqx.Step{Op: "Caller"}, seqx.Step{Op: "Stack"},
+				seqx.Step{Op: "With", Fields: []seqx.Field{{M: "Str", Key: "long", Val: strings.Repeat("L", 40)}, {M: "Int", Key: "n", Val: 1}}})
+			for _, par := range parents {
+				for _, a := range kids {
+					for bi := range kids {
+						b := kids[bi]
+						en.program(seqx.Program{Steps: append(append([]seqx.Step{}, par...), a), Sibling: &b, Entry: entryInfo, Fields: []seqx.Field{{M: "Str", Key: "f", Val: "x"}}, Final: msgM}, "fork")
+					}
+				}
 			}
 		}
 		for k, v := range en.siteHits {
